@@ -140,10 +140,34 @@ def run_harness(h, cfg, wdir):
             res['wall_s'] = time.time() - t0
             return res
     cmd = ['cbmc'] + CBMC_FLAGS
-    if res['unwind'] is not None:
+    rec = cfg.get('rec_unwind', 3)
+    if res['unwind'] is not None and res['unwind'] > rec:
+        # Loops get the harness bound; recursion (drop glue through Box<dyn Error>, ...) gets the small bound `rec`.
+        # Both keep their unwinding assertions, so a bound that is too small is reported, never silently truncated.
+        r = sh(['cbmc', '--show-loops', '--json-ui', out], env=ENV)
+        loops = []
+        try:
+            for e in json.loads(r.stdout):
+                if isinstance(e, dict) and 'loops' in e:
+                    loops = [l['name'] for l in e['loops']]
+        except Exception:
+            loops = None
+        if loops is None:
+            cmd += ['--unwind', str(res['unwind'])]
+        else:
+            cmd += ['--unwind', str(rec)]
+            ov = {}
+            for pat, n in cfg.get('unwindset', {}).items():
+                for l in loops:
+                    if re.search(pat, l):
+                        ov[l] = n
+            sets = ['%s:%d' % (l, ov.get(l, res['unwind'])) for l in loops]
+            if sets:
+                cmd += ['--unwindset', ','.join(sets)]
+            res['loops'] = len(loops)
+            res['rec_unwind'] = rec
+    elif res['unwind'] is not None:
         cmd += ['--unwind', str(res['unwind'])]
-    for k, n in cfg.get('unwindset', {}).items():
-        cmd += ['--unwindset', '%s:%d' % (k, n)]
     cmd += cfg.get('cbmc', [])
     cmd += [out, '--verbosity', '8', '--json-ui']
     jf = os.path.join(w, 'res.json')
